@@ -1030,7 +1030,9 @@ stream_decode_mt(void *coder_ptr, const lzma_allocator *allocator,
 		const size_t in_old = *in_pos;
 		lzma_bufcpy(in, in_pos, in_size, coder->buffer, &coder->pos,
 				LZMA_STREAM_HEADER_SIZE);
-		coder->progress_in += *in_pos - in_old;
+		mythread_sync(coder->mutex) {
+			coder->progress_in += *in_pos - in_old;
+		}
 
 		// Return if we didn't get the whole Stream Header yet.
 		if (coder->pos < LZMA_STREAM_HEADER_SIZE)
@@ -1079,7 +1081,9 @@ stream_decode_mt(void *coder_ptr, const lzma_allocator *allocator,
 		const size_t in_old = *in_pos;
 		const lzma_ret ret = decode_block_header(coder, allocator,
 				in, in_pos, in_size);
-		coder->progress_in += *in_pos - in_old;
+		mythread_sync(coder->mutex) {
+			coder->progress_in += *in_pos - in_old;
+		}
 
 		if (ret == LZMA_OK) {
 			// We didn't decode the whole Block Header yet.
@@ -1625,8 +1629,10 @@ stream_decode_mt(void *coder_ptr, const lzma_allocator *allocator,
 				coder->block_decoder.coder, allocator,
 				in, in_pos, in_size, out, out_pos, out_size,
 				action);
-		coder->progress_in += *in_pos - in_old;
-		coder->progress_out += *out_pos - out_old;
+		mythread_sync(coder->mutex) {
+			coder->progress_in += *in_pos - in_old;
+			coder->progress_out += *out_pos - out_old;
+		}
 
 		if (ret != LZMA_STREAM_END)
 			return ret;
@@ -1667,7 +1673,9 @@ stream_decode_mt(void *coder_ptr, const lzma_allocator *allocator,
 		const size_t in_old = *in_pos;
 		const lzma_ret ret = lzma_index_hash_decode(coder->index_hash,
 				in, in_pos, in_size);
-		coder->progress_in += *in_pos - in_old;
+		mythread_sync(coder->mutex) {
+			coder->progress_in += *in_pos - in_old;
+		}
 		if (ret != LZMA_STREAM_END)
 			return ret;
 
@@ -1680,7 +1688,9 @@ stream_decode_mt(void *coder_ptr, const lzma_allocator *allocator,
 		const size_t in_old = *in_pos;
 		lzma_bufcpy(in, in_pos, in_size, coder->buffer, &coder->pos,
 				LZMA_STREAM_HEADER_SIZE);
-		coder->progress_in += *in_pos - in_old;
+		mythread_sync(coder->mutex) {
+			coder->progress_in += *in_pos - in_old;
+		}
 
 		// Return if we didn't get the whole Stream Footer yet.
 		if (coder->pos < LZMA_STREAM_HEADER_SIZE)
@@ -1740,7 +1750,9 @@ stream_decode_mt(void *coder_ptr, const lzma_allocator *allocator,
 				break;
 
 			++*in_pos;
-			++coder->progress_in;
+			mythread_sync(coder->mutex) {
+				++coder->progress_in;
+			}
 			coder->pos = (coder->pos + 1) & 3;
 		}
 
@@ -1748,7 +1760,9 @@ stream_decode_mt(void *coder_ptr, const lzma_allocator *allocator,
 		// Stream Padding is OK).
 		if (coder->pos != 0) {
 			++*in_pos;
-			++coder->progress_in;
+			mythread_sync(coder->mutex) {
+				++coder->progress_in;
+			}
 			return LZMA_DATA_ERROR;
 		}
 
